@@ -60,7 +60,7 @@ func load() {
 }
 
 // Reset rewinds the replay cursor (used by the generated test wrapper).
-func Reset() { clockIsExact = false; loaded = false; ip, cp, dp = 0, 0, 0; Failed = nil; load() }
+func Reset() { nativeEvents = nil; clockIsExact = false; loaded = false; ip, cp, dp = 0, 0, 0; Failed = nil; load() }
 
 func next(t string) string {
 	load()
@@ -424,8 +424,25 @@ func Conflicts(tagA, tagB string) bool { return derived() }
 // ConflictCell names the first conflicting cell (diagnostics).
 func ConflictCell(tagA, tagB string) string { return "" }
 
-// Events returns the ghost event log (lock/unlock/broadcast/…); executor only.
-func Events() string { return "" }
+// Events returns the event log (lock/unlock/broadcast/…): the ghost log under the executor;
+// natively the log written by package zsync when it is substituted for sync.
+func Events() string {
+	nativeEvMu.Lock()
+	defer nativeEvMu.Unlock()
+	return strings.Join(nativeEvents, ";")
+}
+
+var (
+	nativeEvMu   sync.Mutex
+	nativeEvents []string
+)
+
+// NativeEvent appends to the native event log (package zsync).
+func NativeEvent(e string) {
+	nativeEvMu.Lock()
+	nativeEvents = append(nativeEvents, e)
+	nativeEvMu.Unlock()
+}
 
 // AllocBudget: from now on every allocation whose size depends on a symbolic input must
 // satisfy size*elemsize <= k*l + c for all inputs.
